@@ -18,6 +18,7 @@ variable [Rules]
 
 def completeTy (t : ObjTy) : ObjTy := if t.isArray && t.unknownLen then { t with unknownLen := false } else t
 
+omit [Rules] in
 theorem completeArray_eq (o : Obj) : completeArray o = { o with ty := completeTy o.ty } := by
   unfold completeArray completeTy
   split <;> rfl
@@ -38,15 +39,18 @@ def GoodTy (P : TyParams) (t : ObjTy) : Prop := WTy P t ∧ t.unknownLen = false
 instance (P : TyParams) (t : ObjTy) : Decidable (WTy P t) := by unfold WTy; infer_instance
 instance (P : TyParams) (t : ObjTy) : Decidable (GoodTy P t) := by unfold GoodTy; infer_instance
 
+omit [Rules] in
 theorem wty_complete {P : TyParams} {t : ObjTy} (h : WTy P t) : WTy P (completeTy t) := by
   unfold completeTy
   split
   · exact ⟨h.1, h.2.1, fun hh => by cases hh⟩
   · exact h
 
+omit [Rules] in
 theorem complete_of_known {t : ObjTy} (h : t.unknownLen = false) : completeTy t = t := by
   simp [completeTy, h]
 
+omit [Rules] in
 theorem complete_known {P : TyParams} {t : ObjTy} (h : WTy P t) : (completeTy t).unknownLen = false := by
   unfold completeTy
   cases hu : t.unknownLen
@@ -60,9 +64,11 @@ def ChainOK (P : TyParams) (ts : List ObjTy) : Prop :=
   ((∀ t, t ∈ ts → GoodTy P (completeTy t)) ∨
    ∃ pre g post, ts = pre ++ g :: post ∧ GoodTy P g ∧ ∀ p, p ∈ post → p.unknownLen = true ∨ GoodTy P p)
 
+omit [Rules] in
 theorem chain_nil (P : TyParams) : ChainOK P [] :=
   ⟨fun _ h => absurd h List.not_mem_nil, Or.inl (fun _ h => absurd h List.not_mem_nil)⟩
 
+omit [Rules] in
 theorem chain_single {P : TyParams} {t : ObjTy} (h : ChainOK P [t]) : GoodTy P (completeTy t) := by
   rcases h.2 with h | ⟨pre, g, post, he, hg, _⟩
   · exact h t List.mem_cons_self
@@ -76,6 +82,7 @@ theorem chain_single {P : TyParams} {t : ObjTy} (h : ChainOK P [t]) : GoodTy P (
       have := he.2
       cases as <;> simp at this
 
+omit [Rules] in
 theorem chain_step {P : TyParams} {t t2 : ObjTy} {r : List ObjTy} (h : ChainOK P (t :: t2 :: r)) :
     ChainOK P ((if t2.unknownLen then completeTy t else t2) :: r) := by
   have hw := h.1
@@ -130,6 +137,7 @@ theorem chain_step {P : TyParams} {t t2 : ObjTy} {r : List ObjTy} (h : ChainOK P
           obtain ⟨rfl, rfl⟩ := he
           exact ⟨_ :: bs, g, post, rfl, hg, hpost⟩
 
+omit [Rules] in
 /-- what `objValid` gives about the types of the tentative definitions -/
 theorem chain_initial {P : TyParams} {ts : List ObjTy}
     (hw : ∀ t, t ∈ ts → WTy P t ∧ (t.unknownLen = false → t.size = P.size))
@@ -155,12 +163,15 @@ theorem chain_initial {P : TyParams} {ts : List ObjTy}
 /-- the types of the tentative definitions of `s` in `l`, in list order -/
 def tysOf (s : Sym) (l : List Obj) : List ObjTy := (l.filter (isTentOf s)).map (·.ty)
 
+omit [Rules] in
 theorem tysOf_cons_hit {s : Sym} {o : Obj} (h : isTentOf s o = true) (l : List Obj) : tysOf s (o :: l) = o.ty :: tysOf s l := by
   simp [tysOf, h]
 
+omit [Rules] in
 theorem tysOf_cons_miss {s : Sym} {o : Obj} (h : isTentOf s o = false) (l : List Obj) : tysOf s (o :: l) = tysOf s l := by
   simp [tysOf, h]
 
+omit [Rules] in
 theorem tysOf_find_none {s : Sym} : ∀ {l : List Obj}, l.find? (isTentOf s) = none → tysOf s l = []
   | [], _ => rfl
   | a :: as, h => by
@@ -171,6 +182,7 @@ theorem tysOf_find_none {s : Sym} : ∀ {l : List Obj}, l.find? (isTentOf s) = n
       exact tysOf_find_none h
     · rw [ha] at h; cases h
 
+omit [Rules] in
 theorem tysOf_find_some {s : Sym} (T : ObjTy) : ∀ {l : List Obj} {v : Obj}, l.find? (isTentOf s) = some v →
     ∃ r, tysOf s l = v.ty :: r ∧ tysOf s (updFirst (isTentOf s) (fun o => { o with ty := T }) l) = T :: r
   | [], _, h => by cases h
@@ -189,6 +201,7 @@ theorem tysOf_find_some {s : Sym} (T : ObjTy) : ∀ {l : List Obj} {v : Obj}, l.
       rw [updFirst_hit _ ha]
       exact tysOf_cons_hit (o := { a with ty := T }) ha as
 
+omit [Rules] in
 theorem tysOf_updFirst_other {s s' : Sym} (hne : s' ≠ s) (T : ObjTy) : ∀ l : List Obj,
     tysOf s (updFirst (isTentOf s') (fun o => { o with ty := T }) l) = tysOf s l
   | [] => rfl
@@ -205,6 +218,7 @@ theorem tysOf_updFirst_other {s s' : Sym} (hne : s' ≠ s) (T : ObjTy) : ∀ l :
         right; rw [this]; exact hne
       rw [tysOf_cons_miss hb, tysOf_cons_miss (o := { a with ty := T }) hb]
 
+omit [Rules] in
 /-- **the survivor has the composite type.**  If no non-tentative definition of `s` exists and the tentative
     definitions still to be visited satisfy `ChainOK`, every tentative definition of `s` that `scan_globals`
     keeps has a type with known length and the composite type's size, alignment and array-ness. -/
@@ -282,6 +296,7 @@ theorem scanLoop_good {P : TyParams} {s : Sym} {all : List Obj} (hreal : all.any
                 rw [this] at hs; cases hs
               · exact ih rest hn' hc o ho hs
 
+omit [Rules] in
 theorem scanCore_good {P : TyParams} {s : Sym} {gs : List Obj} (hreal : gs.any (realDefOf s) = false)
     (hc : ChainOK P (tysOf s gs)) : ∀ o, o ∈ scanCore gs → isTentOf s o = true → GoodTy P o.ty :=
   scanLoop_good hreal gs.length gs (Nat.le_refl _) hc
